@@ -817,7 +817,7 @@ func coerceToSignedByte(arg Object, mods ...Object) (result Object) {
 			}
 			sb := result.(*SignedByte)
 			mx := int64(1) << int(num)
-			if sb.IsInt64() && (mx <= sb.Int64() || sb.Int64() <= -mx) {
+			if !fitsBits(sb.AsFixOrBig(), int(num)) || sb.IsInt64() && (mx <= sb.Int64() || sb.Int64() <= -mx) {
 				ErrorPanic(NewScope(), 0, "%s can't be converted to a %s", num,
 					append(List{SignedByteSymbol}, mods...).String())
 			}
@@ -879,13 +879,22 @@ func coerceToUnsignedByte(arg Object, mods ...Object) (result Object) {
 				TypePanic(NewScope(), 0, "size", mods[0], "non-negative fixnum")
 			}
 			ub := result.(*UnsignedByte)
-			if ub.IsInt64() && (1<<int64(num)) <= ub.Int64() {
+			if !fitsBits(ub.AsFixOrBig(), int(num)) || ub.IsInt64() && (1<<int64(num)) <= ub.Int64() {
 				ErrorPanic(NewScope(), 0, "%s can't be converted to a %s", num,
 					append(List{UnsignedByteSymbol}, mods...).String())
 			}
 		}
 	}
 	return
+}
+
+// fitsBits returns false if v is a bignum with a magnitude of 2^bits or
+// more. A fixnum is checked by the caller.
+func fitsBits(v Object, bits int) bool {
+	if bi, ok := v.(*Bignum); ok {
+		return (*big.Int)(bi).BitLen() <= bits
+	}
+	return true
 }
 
 func coerceToBit(arg Object) (result Object) {
